@@ -64,6 +64,13 @@ def dumpTree (m : MFS) (root : Key) : List (List Char) :=
     | none => []
     | some (.file c mt) => [rel, s2l "file", natStr mt.mode, natStr mt.uid, natStr mt.gid, timeStr mt.mtime, c.toList]
     | some (.dir mt) => [rel, s2l "dir", natStr mt.mode, natStr mt.uid, natStr mt.gid, timeStr mt.mtime, []]
-    | some (.link t mt) => [rel, s2l "link", natStr 0o777, natStr mt.uid, natStr mt.gid, s2l "-", t])
+    | some (.link t mt) =>
+      -- absolute targets are shown relative to the dumped view
+      let rp := renderKey root
+      let t' := if root = [] then t
+        else if t = rp then ['/']
+        else if hasPrefix t (rp ++ ['/']) then t.drop rootLen
+        else t
+      [rel, s2l "link", natStr 0o777, natStr mt.uid, natStr mt.gid, s2l "-", t'])
 
 end Driver
